@@ -157,3 +157,24 @@ package packets
 //@ ensures empty-topic-needs-alias: pk.TopicName == "" && pk.Properties.TopicAlias == 0 ==> r0.Code != 0
 //@ ensures qos-needs-packet-id: pk.FixedHeader.Qos > 0 && pk.PacketID == 0 ==> r0.Code != 0
 //@ ensures qos0-has-no-packet-id: pk.FixedHeader.Qos == 0 && pk.PacketID > 0 ==> r0.Code != 0
+
+// ---- C03: a forwarded copy carries the same application message ----
+// verif:def sameBytes(a []byte, b []byte) bool = len(a) == len(b) && (forall i int :: 0 <= i && i < len(a) ==> a[i] == b[i])
+// verif:func packets.Properties.Copy
+//@ ensures message-properties-kept: r0.PayloadFormat == p.PayloadFormat && r0.PayloadFormatFlag == p.PayloadFormatFlag && r0.MessageExpiryInterval == p.MessageExpiryInterval && r0.ContentType == p.ContentType && r0.ResponseTopic == p.ResponseTopic
+//@ ensures correlation-data-kept: sameBytes(r0.CorrelationData, p.CorrelationData)
+//@ ensures user-properties-kept: len(r0.User) == len(p.User) && (forall i int :: 0 <= i && i < len(p.User) ==> r0.User[i] == p.User[i])
+//@ ensures alias-not-transferred: !allowTransfer ==> r0.TopicAlias == 0 && !r0.TopicAliasFlag
+//@ ensures alias-transferred: allowTransfer ==> r0.TopicAlias == p.TopicAlias && r0.TopicAliasFlag == p.TopicAliasFlag
+// verif:loop packets.Properties.Copy 1
+//@ invariant len(pr.User) == rangeindex + 1 && (forall i int :: 0 <= i && i <= rangeindex ==> pr.User[i] == p.User[i])
+
+// verif:func packets.Packet.Copy
+//@ ensures header: r0.FixedHeader.Type == pk.FixedHeader.Type && r0.FixedHeader.Qos == pk.FixedHeader.Qos && r0.FixedHeader.Retain == pk.FixedHeader.Retain && !r0.FixedHeader.Dup
+//@ ensures message-kept: r0.TopicName == pk.TopicName && sameBytes(r0.Payload, pk.Payload) && r0.Created == pk.Created && r0.Expiry == pk.Expiry && r0.Origin == pk.Origin && r0.ProtocolVersion == pk.ProtocolVersion
+//@ ensures properties-kept: r0.Properties.ContentType == pk.Properties.ContentType && r0.Properties.ResponseTopic == pk.Properties.ResponseTopic && r0.Properties.MessageExpiryInterval == pk.Properties.MessageExpiryInterval && r0.Properties.PayloadFormat == pk.Properties.PayloadFormat
+//@ ensures correlation-data-kept: sameBytes(r0.Properties.CorrelationData, pk.Properties.CorrelationData)
+//@ ensures user-properties-kept: len(r0.Properties.User) == len(pk.Properties.User) && (forall i int :: 0 <= i && i < len(pk.Properties.User) ==> r0.Properties.User[i] == pk.Properties.User[i])
+//@ ensures packet-id-cleared: !allowTransfer ==> r0.PacketID == 0 && r0.Properties.TopicAlias == 0 && !r0.Properties.TopicAliasFlag
+//@ ensures packet-id-transferred: allowTransfer ==> r0.PacketID == pk.PacketID
+//@ ensures not-ignored: !r0.Ignore
